@@ -117,9 +117,59 @@ pub fn quiet_panics() {
 }
 
 /// Run `f`, turning a panic of the code under test into data: Err((source file, message)).
+// A call of the code under test that does not return is data, like a panic.  Every call made through `catch`
+// is counted in and out; a watchdog thread (started by main) ends the process with exit code 3 and a line
+// "VH-HANG ..." on stderr when calls are in flight and none has started or ended for VH_CALL_LIMIT_S seconds
+// (default 600: the slowest legitimate single call, a lig/kern table at the capacity of the format, takes about a
+// minute on a loaded machine).  The driver reports it as a violation with the command line as replay.
+static CALLS_ACTIVE: std::sync::atomic::AtomicU64 = std::sync::atomic::AtomicU64::new(0);
+static CALLS_MADE: std::sync::atomic::AtomicU64 = std::sync::atomic::AtomicU64::new(0);
+static LAST_CALL_EVENT_MS: std::sync::atomic::AtomicU64 = std::sync::atomic::AtomicU64::new(0);
+
+fn now_ms() -> u64 {
+    static START: std::sync::OnceLock<std::time::Instant> = std::sync::OnceLock::new();
+    START.get_or_init(std::time::Instant::now).elapsed().as_millis() as u64
+}
+
+pub fn start_call_watchdog() {
+    use std::sync::atomic::Ordering::SeqCst;
+    let limit_s: u64 = std::env::var("VH_CALL_LIMIT_S").ok().and_then(|v| v.parse().ok()).unwrap_or(600);
+    let _ = now_ms();
+    std::thread::spawn(move || loop {
+        std::thread::sleep(std::time::Duration::from_millis(500));
+        let active = CALLS_ACTIVE.load(SeqCst);
+        let last = LAST_CALL_EVENT_MS.load(SeqCst);
+        if active > 0 && now_ms().saturating_sub(last) > limit_s * 1000 {
+            eprintln!(
+                "VH-HANG {} call(s) of the code under test in flight, none returned for {} s; calls made so far: {}",
+                active,
+                limit_s,
+                CALLS_MADE.load(SeqCst)
+            );
+            std::process::exit(3);
+        }
+    });
+}
+
+pub fn call_begin() {
+    use std::sync::atomic::Ordering::SeqCst;
+    CALLS_MADE.fetch_add(1, SeqCst);
+    LAST_CALL_EVENT_MS.store(now_ms(), SeqCst);
+    CALLS_ACTIVE.fetch_add(1, SeqCst);
+}
+
+pub fn call_end() {
+    use std::sync::atomic::Ordering::SeqCst;
+    CALLS_ACTIVE.fetch_sub(1, SeqCst);
+    LAST_CALL_EVENT_MS.store(now_ms(), SeqCst);
+}
+
 pub fn catch<T>(f: impl FnOnce() -> T) -> Result<T, (String, String)> {
     LAST_PANIC.with(|p| *p.borrow_mut() = None);
-    match std::panic::catch_unwind(std::panic::AssertUnwindSafe(f)) {
+    call_begin();
+    let r = std::panic::catch_unwind(std::panic::AssertUnwindSafe(f));
+    call_end();
+    match r {
         Ok(v) => Ok(v),
         Err(_) => Err(LAST_PANIC
             .with(|p| p.borrow_mut().take())
